@@ -53,6 +53,7 @@ class VOpts:
         noise='none',            # none | line_comment | block_comment | attribute | tabs_newlines | crlf
         redeclare=False,         # 'wire' re-declaration of ports
         const_style='pin',       # pin (1'b0 directly on pins) | bus (assign k = N'b...; then k[i])
+        const_spelling='b',      # radix letter of sized constants: b | h | d | B | H | D
         open_pin='omit',         # omit | empty  (.P())
         assign_order='fwd',      # fwd | rev  (textual order of assign statements)
         alias_chain=False,       # route one output through a chain of two assigns
@@ -62,7 +63,7 @@ class VOpts:
         in_decl=['bus_desc', 'bus_asc', 'bus_mixed'], out_decl=['bus_desc', 'bus_asc'], port_order=[1, 2, 3],
         stmt_order=['inst_first', 'interleaved', 'inst_reversed'], pin_order=['rev', 'out_first'], out_style=['assign'],
         escape=[True], noise=['line_comment', 'block_comment', 'attribute', 'tabs_newlines', 'crlf'], redeclare=[True],
-        const_style=['bus'], open_pin=['empty'], assign_order=['rev'], alias_chain=[True, 'rev'], concat_assign=[True],
+        const_style=['bus'], const_spelling=['h', 'd', 'B', 'H', 'D'], open_pin=['empty'], assign_order=['rev'], alias_chain=[True, 'rev'], concat_assign=[True],
     )
 
     def __init__(self, **kw):
@@ -109,7 +110,8 @@ def verilog(nl, cmap, dffcell, opts, const_gate_inputs=None):
     for s in nl.signals():
         if s in sig_name: continue
         sig_name[s] = out_name(direct[s]) if s in direct else esc(f'w_{s}')
-    sig_name['c0'], sig_name['c1'] = "1'b0", "1'b1"
+    sp = opts.const_spelling
+    sig_name['c0'], sig_name['c1'] = f"1'{sp}0", f"1'{sp}1"
     decl, inst, assigns = [], [], []
     # ---- declarations
     nIbus = nI - 1 if (opts.in_decl == 'bus_mixed' and nI > 1) else nI
@@ -151,7 +153,7 @@ def verilog(nl, cmap, dffcell, opts, const_gate_inputs=None):
     const_bus = opts.const_style == 'bus'
     if const_bus:
         decl.append('wire [1:0] kk;')
-        assigns.append("assign kk = 2'b10;")
+        assigns.append({'b': "assign kk = 2'b10;", 'B': "assign kk = 2'B10;", 'h': "assign kk = 2'h2;", 'H': "assign kk = 2'H2;", 'd': "assign kk = 2'd2;", 'D': "assign kk = 2'D2;"}[opts.const_spelling])
         sig_name['c0'], sig_name['c1'] = 'kk[0]', 'kk[1]'
     # ---- instances
     def pins_text(pairs):
